@@ -273,6 +273,9 @@ func TestDriverTwin(t *testing.T) {
 			"and once more by a FRESH operating-system process (one replica, no traffic) and by a process that is a node with ANOTHER node-local configuration throughout (telemetry enabled process-wide, go-ethereum metrics, "+
 			"app.toml with every setting moved, start flags, debug logger, store tracing, crisis invariant checks, state-sync snapshots, its own traffic) whose per-block outputs must equal replica 0's; "+
 			"blocks also begin with transactions at the boundary of being refused by the state transition (value vs balance of a fresh account: CApply cases), contain gas hogs that exhaust the block gas limit, Cosmos transactions failing at every stage; "+
+			"replicas 1.. also meet 'ghost' transactions that are never included as they are (CheckTx / ReCheckTx / simulation / eth_call / estimateGas / proposals of blocks never finalized) and blocks contain variants of what the replicas met "+
+			"in this or an earlier block, included or not: the same inner Ethereum transaction in a wrapper with another From (funded account with sequence = inner nonce, unfunded, other sequence, regular sender, no account) / declared fee / gas limit, "+
+			"the wrapper repeated, the inner transaction signed again by another key, Cosmos envelopes with the same signature around another body / fee (histogram variant:*, variant-source:*, variant-outcome:*); "+
 			"a replica on which FinalizeBlock panics while others execute the block is a hit; "+
 			"non-trivial = at least one transaction executed (code 0) and (a destroy / transfer() special or >= 3 transactions); distinct by (special, kinds, malformations, result classes)")
 	cases := NewCases(dir, "From Evm Require Import CorrBase Destroy Nondet CorrNondet.", "nd_mismatches")
